@@ -214,10 +214,16 @@ func init() {
 		return Tuple{in.B.Bool(re.MatchString(in.argStr(a[1]))), IfaceV{}}, nil
 	})
 	reg("(*regexp.Regexp).MatchString", func(in *Interp, fn *ssa.Function, a []Value) (Value, *iPanic) {
+		if a[0].(Pointer).O == nil {
+			panic(unsupported{"nil *regexp.Regexp (package variable not initialised)"})
+		}
 		re := a[0].(Pointer).O.Native.(nativeRegexp)
 		return in.B.Bool(re.MatchString(in.argStr(a[1]))), nil
 	})
 	reg("(*regexp.Regexp).FindStringSubmatch", func(in *Interp, fn *ssa.Function, a []Value) (Value, *iPanic) {
+		if a[0].(Pointer).O == nil {
+			panic(unsupported{"nil *regexp.Regexp (package variable not initialised)"})
+		}
 		re := a[0].(Pointer).O.Native.(nativeRegexp)
 		return in.stringSlice(re.FindStringSubmatch(in.argStr(a[1]))), nil
 	})
